@@ -60,7 +60,9 @@ CHECKS = {
              "path of the real function is shown to raise exactly when the refusal condition holds for all table values on that "
              "path; accepted tables are the exact least-squares solution (so no supplied value or relation moves by more than "
              "sqrt(residual_atol)); order / case / pass-through / idempotence identities; dtype, cwd, relation-path, rewritten-relations-file "
-             "and command-line-flag twins concrete.",
+             "and command-line-flag twins concrete; the residual refusal is stated as the misfit of the best tensor whether or not the table "
+             "determines it (under-determined + redundant supplied sets); non-modulus columns pass through also when zero / below the drop "
+             "tolerance; relation files with blank lines; triclinic (known finding: never refuses).",
         note="Trusted: exact-LSQ stub as the contract of numpy.linalg.lstsq; the twins (dtype, working directory, file path) are "
              "concrete runs, not solver results. Subsets of supplied components outside the listed families are outside the claim.",
         design="3/C09"),
@@ -115,7 +117,8 @@ CHECKS = {
              "NaN/inf and that Q1, Q2 vanish (<=1e-290) above the exp overflow threshold; symbolically no 0/0 or x/0 survives into any "
              "assembled component and the T=0 row carries no thermal term; for mixed shear keys the calculation completes with defined "
              "values on every path of the approximate-equality task merging (equal / nearly equal axial strain fractions); no undefined value for "
-             "temperature grids starting at 0 K, without a 0 K point (T_MIN > 0) and with the 0 K point not in first position.",
+             "temperature grids starting at 0 K, without a 0 K point (T_MIN > 0) and with the 0 K point not in first position; loading the QHA "
+             "layer completes for every DT in 0.5..500 K and DELTA_P in 0.1..5 GPa (finite-domain symbolic values through the real loader).",
         note="The configuration sweep 'every schema-valid configuration x interpolator completes' is library behaviour (qha, scipy, LAPACK) "
              "and outside; numpy.exp is modelled by the listed axioms (each a true fact of a faithful exp); eigen-frame real-ness is a "
              "concrete check over the 15 keys.",
@@ -157,7 +160,8 @@ CHECKS = {
              "handed to the qha writer is, for all values of the symbolic results, the in-memory quantity (adiabatic vs isothermal tensor, "
              "averages, velocities, V, P) times the documented unit factor, under the documented file name, with T / P(GPa) / V(A^3) axes; "
              "aliases identical; a unit override is honoured for every rule (both bases), fname overrides too, also when the same rule is "
-             "listed several times for one base; write_output dispatches per base.",
+             "listed several times for one base, and as a pattern ({ij}, {base}) on tensor keywords (one file per component); write_output "
+             "dispatches per base.",
         note="The textual table (labels as printed, the four dropped guard temperatures, precision) is produced by qha/pandas and is "
              "outside the solver claim; the concrete replay re-reads real files only to confirm a counterexample.",
         design="3/C15"),
@@ -185,8 +189,9 @@ CHECKS = {
              "interpolant built from the flipped (ln V, ln omega) nodes with the documented node selection (for every implementation of "
              "the interpolant); lsq_poly is exact for ln omega polynomial in ln V up to the order for every admissible number of volumes down to nv = order+1; interpolate_modes fills slot (q,m) from "
              "that mode only and leaves Gamma acoustic slots zero; plot_modes draws freq / gamma / V dgamma/dV for n = 0, 1, 2.",
-        note="That scipy's interpolants reproduce power laws on the extrapolated grid is library numerics (outside; used only in replays). "
-             "Known finding: 'hermite' cannot be constructed (known_findings.json).",
+        note="That scipy's interpolants reproduce power laws on the extrapolated grid is library numerics (outside; used only in replays); the "
+             "stubs do carry the library classes' extrapolation contract (probed on the installed scipy): every method is defined on a grid "
+             "reaching beyond the sampled volumes. Known finding: 'hermite' cannot be constructed (known_findings.json).",
         design="3/C11"),
     "C16": dict(
         engine="crosshair + z3",
@@ -198,7 +203,8 @@ CHECKS = {
              "documented field the schema neither rejects a documented-valid nor accepts a documented-invalid value (all JSON kinds, all "
              "numbers); required sections, closed objects, shipped files; YAML and JSON spellings of every documented field with delicate values "
              "(numeric-looking strings, integral floats, booleans, null) load to the written object and validate alike; a second "
-             "apply_default_config call in one process is unaffected by the first (CrossHair, symbolic leaves).",
+             "apply_default_config call in one process is unaffected by the first (CrossHair, symbolic leaves); a user section over a plain "
+             "default value (and the reverse) wins as a whole.",
         note="Skeleton family is bounded (depth<=3, seeded); dict-vs-leaf clashes excluded. The schema compiler covers the keyword subset "
              "the packaged schema uses and is cross-validated against jsonschema on every solver witness.",
         design="3/C16"),
@@ -210,7 +216,8 @@ CHECKS = {
              "masses on every path of its data-dependent guards, restores an orthonormal pair (nlsat under orthonormality constraints), uses the Hermitian norm, rejects shape "
              "mismatches; evec_sort (n=2,3; rational orthonormal real bases with signed permutations and rational complex unitary bases with phases "
              "1, i, -1, -i; perturbation box of radius 0.05) returns the expected order on every feasible path of the greedy argmax; "
-             "evec_load returns every complex component at its (q, mode, atom, axis) place for files in matdyn layout (token files).",
+             "evec_load returns every complex component at its (q, mode, atom, axis) place for files in matdyn layout (token files); integer-valued "
+             "displacement vectors behave like floats (dtype twin); seven dimension-mismatch shapes rejected.",
         note="Outside: dimensions 4-60, unitary bases with irrational entries and general phases for the sort; for evec_load the float() "
              "parsing itself and the digit regexes on symbolic text (q coordinates and frequencies are concrete, pairwise distinct).",
         design="3/C20"),
@@ -223,7 +230,7 @@ CHECKS = {
              "and without static table, crystal system and --cellmass: V, F, P, density carry the A^3 / eV / GPa / g/cm^3 factors once; "
              "P = -grad(FIT(E))/grad(v) (spline-resampled in mode none); F = input energies (none) or the fit at the row's V; "
              "pressure-mode V and F are the same inverse interpolation applied to v and to the fit, rows at the requested pressures; moduli = "
-             "fit of the table at the row's V; VRH and v_p, v_s, v_phi relations.",
+             "fit of the table at the row's V; VRH and v_p, v_s, v_phi relations; the crystal-system option without a static table is a no-op.",
         note="Grid of 4 points and 5 input volumes (the callback is uniform in these sizes, which is an argument, not a solver result); file "
              "parsing, table printing and kernel numerics outside; stage R runs the real command once per mode.",
         design="3/C18"),
@@ -236,7 +243,8 @@ CHECKS = {
              "line, the same line for every variable, labelled by the other coordinate (rows for -T, columns for -P); extract-geotherm - each "
              "value is the spline of the table with temperatures along rows and pressures along columns evaluated at the geotherm row's "
              "(T_i, P_i) for every geotherm point inside the tabulated range (all paths of any data-dependent guard), for default and custom "
-             "column names, geotherm columns passed through.",
+             "column names, geotherm columns passed through; the variable's table is read whatever other VAR_tp_* entries exist next to it and in "
+             "whatever order glob lists them (adversarial order stub, concrete twin).",
         note="Outside: file discovery (glob), table parsing and printing, and everything about the FITPACK spline itself (that it "
              "reproduces grid nodes, convergence under refinement: library numerics / asymptotic statement).",
         design="3/C19 (as built: A.4)"),
@@ -264,7 +272,8 @@ CHECKS = {
              "block (or none); write_energy followed by read_energy returns the same counts, P/V/E and every frequency at its place, also when "
              "the same path held (and was read as) other data sets before (bounded history of 4-6 steps); the `cij fill` command re-emits the "
              "two header lines and the lattice block unchanged, consumes exactly N+1 table lines, forwards its options and emits fill_cij of "
-             "the parsed table.",
+             "the parsed table, also for column spellings the reader accepts (C_11, c2323); a hand-written phonon file with every numeric field "
+             "symbolic (weights and q coordinates included) parses field by field. Known finding: six-decimal re-emission by `cij fill`.",
         note="Outside: numeric precision of the written text and float() parsing themselves (C-level), q coordinates and weights are concrete "
              "in the round trip (%-formatting realises them); for `cij fill` the text produced by pandas' to_string / read by its C parser is replaced "
              "by the contract 'whitespace table <-> frame' (the concrete replay goes through the real text).",
